@@ -32,16 +32,23 @@ theorem readN_hash_nil (rd : Rdr) (n : Nat) (hn : 0 < n) :
   | succ n =>
     cases rd <;> simp [readN, rHash, rFixed, MAX_FIXED_READ, splitExact, GV.Dec.bind]
 
+theorem rU64_write_nil (n : Nat) (h : n < 2^64) : rU64 (writeU64 n) = .ok n [] 0 := by
+  have := rU64_write n h []
+  rwa [List.append_nil] at this
+
 /-- what `MerkleProof::read` does on `mpWitness n`, for every `0 < n < 2^64` -/
 theorem merkleProof_on_witness (rd : Rdr) (n : Nat) (h0 : 0 < n) (h : n < 2^64) :
     merkleProof rd (mpWitness n) =
       if n * 32 > ISIZE_MAX then .panic .capacityOverflow 0
       else .err .ioEof (n * 32 + (match rd with | .bin => 32 | .buf => 0)) := by
-  unfold merkleProof mpWitness
-  rw [rU64_write 0 (by decide)]
+  have e1 : rU64 (mpWitness n) = .ok 0 (writeU64 n) 0 := rU64_write 0 (Nat.pow_pos (by omega)) _
+  have e2 := rU64_write_nil n h
+  have e3 := readN_hash_nil rd n h0
+  unfold merkleProof
+  rw [e1]
   simp only [GV.Dec.bind]
-  rw [show writeU64 n = writeU64 n ++ [] by simp, rU64_write n h]
-  simp only [withCapacity, GV.Dec.bind, readN_hash_nil rd n h0]
+  rw [e2]
+  simp only [withCapacity, e3]
   split <;> simp [Outcome.addAlloc]
 
 /-- **`MerkleProof::read` can panic** (capacity overflow) on a 16-byte input, with either reader. -/
